@@ -300,12 +300,7 @@ func checkRun(o *sim.Outcome, w *world, ri int, run *GRun, ob *runObs, fr *fresh
 		ri, run.Handlers, run.Agent, dirOf(w, run.LogName), run.Policy, run.HardKey, kind, len(ob.auths), len(ob.signs), len(ob.addSeqs), len(ob.ca), len(ob.faults))
 }
 
-func dirOf(w *world, name string) string {
-	if u := w.user(name); u != nil {
-		return u.Dir
-	}
-	return "unknown-user"
-}
+func dirOf(w *world, name string) string { return w.dirState(name) }
 
 func mapEq(a, b map[string]string) bool {
 	if len(a) != len(b) {
